@@ -3,7 +3,7 @@
    calcDescriptor<X>Length: Gen/Preds.v (re-translated from descriptor.go on every run);
    Spec: Spec/DescSpec.v (body sizes from the standards as plain integers, the TLV split as a relation on bytes). *)
 From Coq Require Import ZArith List Lia.
-Require Import Base.Bits Base.Iter Base.Wr Gen.Consts Gen.Types Gen.Preds Model.Desc Spec.DescSpec Proofs.DescProofs Proofs.DescRoundTrip2.
+Require Import Base.Bits Base.Iter Base.Wr Gen.Consts Gen.Types Gen.Preds Model.Desc Spec.DescSpec Proofs.DescProofs Proofs.DescRoundTrip2 Proofs.DescRoundTrip3.
 Import ListNotations.
 Open Scope Z_scope.
 
@@ -446,3 +446,98 @@ Example C14_teletext_page_160 :
     (fun out => res_map (fun r => map Descriptor_Teletext (fst r)) (parse_descriptors (new_iter (bytes_of_items out))))
   = Ok [Some {| DescriptorTeletext_Items := [it 0] |}].
 Proof. vm_compute. reflexivity. Qed.
+
+Theorem C14_rt_short_event : forall d v out rest,
+  Descriptor_Tag d = 77 -> Descriptor_ShortEvent d = Some v -> length (DescriptorShortEvent_Language v) = 3%nat ->
+  5 + zlen (DescriptorShortEvent_EventName v) + zlen (DescriptorShortEvent_Text v) < 256 ->
+  enc_descriptors_with_length [d] = Ok out -> items_bytes_ok out ->
+  parse_descriptors (new_iter (bytes_of_items out ++ rest)) =
+    Ok ([set_ShortEvent (desc_hdr 77 (5 + zlen (DescriptorShortEvent_EventName v) + zlen (DescriptorShortEvent_Text v))) v],
+        mk_iter (bytes_of_items out ++ rest) (4 + (5 + zlen (DescriptorShortEvent_EventName v) + zlen (DescriptorShortEvent_Text v)))).
+Proof. exact rt_short_event. Qed.
+Print Assumptions C14_rt_short_event.
+
+(* wf_component: both 4-bit fields, both bytes, 3-byte language code, text of at most 249 bytes *)
+Theorem C14_rt_component : forall d v out rest,
+  Descriptor_Tag d = 80 -> Descriptor_Component d = Some v -> wf_component v ->
+  enc_descriptors_with_length [d] = Ok out -> items_bytes_ok out ->
+  parse_descriptors (new_iter (bytes_of_items out ++ rest)) =
+    Ok ([set_Component (desc_hdr 80 (6 + zlen (DescriptorComponent_Text v))) v],
+        mk_iter (bytes_of_items out ++ rest) (4 + (6 + zlen (DescriptorComponent_Text v)))).
+Proof. exact rt_component. Qed.
+Print Assumptions C14_rt_component.
+
+(* AC-3 / Enhanced AC-3: all 16 / 256 flag combinations; an optional byte whose flag is clear is not transmitted, so it
+   must hold 0 to come back (opt_ok); additional info of any length that fits *)
+Theorem C14_rt_ac3 : forall d v out rest,
+  Descriptor_Tag d = 106 -> Descriptor_AC3 d = Some v -> wf_ac3 v ->
+  enc_descriptors_with_length [d] = Ok out -> items_bytes_ok out ->
+  parse_descriptors (new_iter (bytes_of_items out ++ rest)) =
+    Ok ([set_AC3 (desc_hdr 106 (size_ac3 v)) v], mk_iter (bytes_of_items out ++ rest) (4 + size_ac3 v)).
+Proof. exact rt_ac3. Qed.
+Print Assumptions C14_rt_ac3.
+
+Theorem C14_rt_enhanced_ac3 : forall d v out rest,
+  Descriptor_Tag d = 122 -> Descriptor_EnhancedAC3 d = Some v -> wf_enhanced_ac3 v ->
+  enc_descriptors_with_length [d] = Ok out -> items_bytes_ok out ->
+  parse_descriptors (new_iter (bytes_of_items out ++ rest)) =
+    Ok ([set_EnhancedAC3 (desc_hdr 122 (size_enhanced_ac3 v)) v], mk_iter (bytes_of_items out ++ rest) (4 + size_enhanced_ac3 v)).
+Proof. exact rt_enhanced_ac3. Qed.
+Print Assumptions C14_rt_enhanced_ac3.
+
+(* extension: tag 6 with the supplementary audio body (and no raw bytes), or any other extension tag with raw bytes
+   (possibly none) and no typed body *)
+Theorem C14_rt_extension : forall d v out rest,
+  Descriptor_Tag d = 127 -> Descriptor_Extension d = Some v -> wf_extension v ->
+  enc_descriptors_with_length [d] = Ok out -> items_bytes_ok out ->
+  parse_descriptors (new_iter (bytes_of_items out ++ rest)) =
+    Ok ([set_Extension (desc_hdr 127 (size_extension v)) v], mk_iter (bytes_of_items out ++ rest) (4 + size_extension v)).
+Proof. exact rt_extension. Qed.
+Print Assumptions C14_rt_extension.
+
+(* extended event: 0..n items, each description and content with its own length byte; length_of_items is computed *)
+Theorem C14_rt_extended_event : forall d v out rest,
+  Descriptor_Tag d = 78 -> Descriptor_ExtendedEvent d = Some v -> wf_extended_event v ->
+  enc_descriptors_with_length [d] = Ok out -> items_bytes_ok out ->
+  parse_descriptors (new_iter (bytes_of_items out ++ rest)) =
+    Ok ([set_ExtendedEvent (desc_hdr 78 (size_extended_event v)) v], mk_iter (bytes_of_items out ++ rest) (4 + size_extended_event v)).
+Proof. exact rt_extended_event. Qed.
+Print Assumptions C14_rt_extended_event.
+
+(* VBI data: services of the six line-based kinds with 0..255 lines each, services of any other kind without lines *)
+Theorem C14_rt_vbi_data : forall d v out rest,
+  Descriptor_Tag d = 69 -> Descriptor_VBIData d = Some v -> Forall wf_vbi_service (DescriptorVBIData_Services v) ->
+  0 < size_vbi_data v < 256 ->
+  enc_descriptors_with_length [d] = Ok out -> items_bytes_ok out ->
+  parse_descriptors (new_iter (bytes_of_items out ++ rest)) =
+    Ok ([set_VBIData (desc_hdr 69 (size_vbi_data v)) v], mk_iter (bytes_of_items out ++ rest) (4 + size_vbi_data v)).
+Proof. exact rt_vbi_data. Qed.
+Print Assumptions C14_rt_vbi_data.
+
+(* satisfiability: an AC-3 descriptor with two of the four optional bytes; a VBI data descriptor with a teletext
+   service of two lines, a service of a non line-based kind (3) and a WSS service without lines; an extended event
+   with two items *)
+Definition ex_ac3 : DescriptorAC3 := {| DescriptorAC3_AdditionalInfo := [1; 2]; DescriptorAC3_ASVC := 0; DescriptorAC3_BSID := 8;
+  DescriptorAC3_ComponentType := 66; DescriptorAC3_HasASVC := false; DescriptorAC3_HasBSID := true; DescriptorAC3_HasComponentType := true;
+  DescriptorAC3_HasMainID := false; DescriptorAC3_MainID := 0 |}.
+Definition ex_vbi : DescriptorVBIData := {| DescriptorVBIData_Services :=
+  [ {| DescriptorVBIDataService_DataServiceID := 1; DescriptorVBIDataService_Descriptors :=
+         [ {| DescriptorVBIDataDescriptor_FieldParity := true; DescriptorVBIDataDescriptor_LineOffset := 7 |};
+           {| DescriptorVBIDataDescriptor_FieldParity := false; DescriptorVBIDataDescriptor_LineOffset := 31 |} ] |};
+    {| DescriptorVBIDataService_DataServiceID := 3; DescriptorVBIDataService_Descriptors := [] |};
+    {| DescriptorVBIDataService_DataServiceID := 7; DescriptorVBIDataService_Descriptors := [] |} ] |}.
+Definition ex_extended_event : DescriptorExtendedEvent := {| DescriptorExtendedEvent_ISO639LanguageCode := [102; 114; 97];
+  DescriptorExtendedEvent_Items :=
+    [ {| DescriptorExtendedEventItem_Content := [9]; DescriptorExtendedEventItem_Description := [7; 8] |};
+      {| DescriptorExtendedEventItem_Content := []; DescriptorExtendedEventItem_Description := [] |} ];
+  DescriptorExtendedEvent_LastDescriptorNumber := 15; DescriptorExtendedEvent_Number := 1; DescriptorExtendedEvent_Text := [65] |}.
+Example C14_rt_examples2 :
+  wf_ac3 ex_ac3 /\ Forall wf_vbi_service (DescriptorVBIData_Services ex_vbi) /\ wf_extended_event ex_extended_event /\
+  res_map bytes_of_items (enc_descriptors_with_length
+    [set_AC3 (desc_hdr 106 0) ex_ac3; set_VBIData (desc_hdr 69 9) ex_vbi; set_ExtendedEvent (desc_hdr 78 0) ex_extended_event]) =
+  Ok [240; 34; 106; 5; 207; 66; 8; 1; 2; 69; 9; 1; 2; 231; 223; 3; 1; 255; 7; 0;
+      78; 14; 31; 102; 114; 97; 7; 2; 7; 8; 1; 9; 0; 0; 1; 65].
+Proof.
+  split; [cbv; intuition discriminate|]. split; [repeat constructor; cbv; intuition discriminate|].
+  split; [cbv; intuition discriminate|]. vm_compute. reflexivity.
+Qed.
